@@ -495,7 +495,9 @@ def ref_init(t, item):
         n = ref_list(t, 0, item[1], writes, True)
         if t.kind == 'array' and t.n is None: size = n * t.base.size
     else:
-        if not fits(t, item): raise Unjudged('top-level type mismatch')
+        if not fits(t, item):
+            if t.kind in ('struct', 'union', 'array'): raise RefError('an aggregate needs a brace-enclosed list, a string (character arrays) or an expression of its own type')     # 6.7.9p13,14,16
+            raise Unjudged('top-level type mismatch')
         if t.kind == 'array' and t.n is None: size = item[1] * item[2] if item[0] == 'str' else size
         writes.append((0, size * 8, item, t))
     return writes, size
@@ -606,6 +608,7 @@ def gen_inits(t, rnd, depth=0):
     if t.kind == 'scalar':
         return rnd.choice([('e', lab()), ('list', [((), ('e', lab()))])])
     r = rnd.random()
+    if r > 0.97: return ('e', lab())          # invalid: unbraced scalar for an aggregate
     if t.kind in ('struct', 'union') and r < 0.05: return ('sv', t, lab())
     if t.kind == 'array' and t.base.kind == 'scalar' and t.base.ischar and r < 0.3: return ('str', rnd.choice([1, 2, 3, 4]), 1, lab())
     return ('list', list_for(t, 0))
